@@ -1,8 +1,9 @@
 /* C17 harness: insertion sequences with task placement, data flushes and waits on 1..4 MPI
  * ranks, through the real DTD interface (parsec_dtd_insert_task, parsec_dtd_data_flush,
- * parsec_dtd_data_flush_all, parsec_taskpool_wait); one tile of NB int32 per datum, owned by the rank
- * the case says.  A tile of value v holds v + i * PMOD in element i.  Two arena datatypes are attached:
- * the whole tile (NB elements) and its leading part (NH elements); writers use the whole tile, a
+ * parsec_dtd_data_flush_all, parsec_taskpool_wait); one tile of <bytes> bytes per datum (3..16, sizes that
+ * are not multiples of 4 included), owned by the rank the case says.  A tile of value v (< 2^20) holds
+ * enc(v, j) = (uint8)((v >> 8 (j mod 3)) + 37 (j / 3)) in byte j.  Two arena datatypes of bytes are attached:
+ * the whole tile and its leading part (NH = 3 bytes: the value); writers use the whole tile, a
  * reader the whole tile (r) or the leading part (h), as the DTD API allows per parameter.  Derived from harness/h_dtd.c (C03/C04, single rank).
  *
  *   [mpiexec -n R] h_dtdflush <casefile> <outfile>
@@ -14,7 +15,8 @@
  * written when MPI and PaRSEC are initialised).
  *
  * case line:
- *   dtdflush <ranks> <ndata> <threads> <sched> <window> <threshold> <spin> <owners> | <item> ; <item> ; ...
+ *   dtdflush <ranks> <ndata> <threads> <sched> <window> <threshold> <spin> <owners> [<bytes>] | <item> ; <item> ; ...
+ *   bytes   size of a tile (default 16)
  *   owners  comma separated owner rank of every datum (0 <= owner < ranks)
  *   item    task:   [@<rank>] <datum><r|h|w|x>[^] ...   ("." = no data; h = read through the leading-part datatype)
  *                   @<rank>: placed by a PARSEC_VALUE | PARSEC_AFFINITY parameter;
@@ -27,6 +29,9 @@
  *                   the bodies of all tasks inserted so far that run on its rank have returned, then sleeps 2 ms:
  *                   the next flush finds the tile's last user already completed (last_user.alive ==
  *                   TASK_IS_NOT_ALIVE branch of parsec_insert_dtd_flush_task) instead of still pending
+ *           %<r>    timing only ("the others run ahead"): the inserting thread of rank r sleeps 30 ms here, so that
+ *                   activations sent by the other ranks arrive before rank r has inserted the tasks they target
+ *                   (deferred activations: the message is saved and replayed at insertion)
  *   The harness ends every case with F* ; ! (section "data:").
  *
  * observation line:
@@ -35,8 +40,8 @@
  *         rank that ran it; snap: one group per "!" (owner's copy of every datum, in datum order);
  *   data  owner's copy of every datum after the final flush_all + wait; runs: executions per task
  *         summed over the ranks; null: flows for which a body got a NULL pointer; torn: elements a body
- *         could see (NB for r/x, NH for h) that did not belong to the value of element 0.
- *   A tile is printed as its value v when every element i holds v + i * PMOD, else as e0/e1/../e(NB-1). */
+ *         could see (the whole tile for r/x, NH bytes for h) that did not belong to the value in bytes 0..2.
+ *   A tile is printed as its value v when every byte j holds enc(v, j), else as b0/b1/../b(bytes-1). */
 #include "parsec/runtime.h"
 #include "parsec/data_dist/matrix/two_dim_rectangle_cyclic.h"
 #include "parsec/interfaces/dtd/insert_function.h"
@@ -55,13 +60,16 @@
 #define MAXS 48            /* wait points of a case */
 #define MAXR 8
 #define PMOD 1000003u
-#define NB 4               /* int32 per tile */
-#define NH 2               /* leading part seen through the second datatype */
+#define MAXB 16             /* bytes per tile at most */
+#define NH 3               /* leading part seen through the second datatype: the bytes that hold the value */
+#define NB (C.tb)
+static inline uint8_t enc(uint32_t v, int j) { return (uint8_t)((v >> (8 * (j % 3))) + 37u * (uint32_t)(j / 3)); }
+static inline int32_t dec(const volatile uint8_t *p) { return (int32_t)((uint32_t)p[0] | ((uint32_t)p[1] << 8) | ((uint32_t)p[2] << 16)); }
 
 typedef struct { int nacc; int d[MAXF]; char m[MAXF]; int rank; int aff; } task_t;   /* aff: flow carrying PARSEC_AFFINITY or -1 */
 typedef struct { char kind; int arg; } item_t;     /* 'T' task index, 'F' datum (-1 = all), '!' */
 typedef struct {
-    int ranks, ndata, threads, window, threshold, spin, ntasks, nitems;
+    int ranks, ndata, threads, window, threshold, spin, ntasks, nitems, tb;
     char sched[32];
     int owner[MAXD];
     task_t t[MAXT];
@@ -73,12 +81,12 @@ static int my_rank, world, dbg;
 static int32_t obs_in[MAXT][MAXF];
 static int32_t obs_null[MAXT][MAXF];
 static int32_t runs[MAXT];
-static int32_t snaps[MAXS + 1][MAXD][NB];
+static int32_t snaps[MAXS + 1][MAXD][MAXB];
 static int32_t nulls, torn;
 static parsec_taskpool_t *g_tp;
 static parsec_data_collection_t *g_A;
 static int g_region, g_head;
-static int32_t *home[MAXD];          /* owner's storage of tile d (NULL on the other ranks) */
+static uint8_t *home[MAXD];          /* owner's storage of tile d (NULL on the other ranks) */
 
 static uint32_t Fval(int tid, const int32_t *in, int n) {
     uint64_t a = (uint64_t)tid + 1;
@@ -102,7 +110,7 @@ static void spin_for(int tid) {
 }
 
 static int body(parsec_execution_stream_t *es, parsec_task_t *this_task) {
-    int tid = -1, rk = -1; int32_t *p[MAXF] = {0};
+    int tid = -1, rk = -1; uint8_t *p[MAXF] = {0};
     (void)es;
     parsec_dtd_unpack_args(this_task, &tid, &rk, &p[0], &p[1], &p[2], &p[3], &p[4], &p[5], &p[6], &p[7]);
     const task_t *t = &C.t[tid];
@@ -110,12 +118,12 @@ static int body(parsec_execution_stream_t *es, parsec_task_t *this_task) {
     for (int j = 0; j < t->nacc; j++) {
         if (NULL == p[j]) { obs_null[tid][j] = 1; parsec_atomic_fetch_inc_int32(&nulls); }
         if (t->m[j] != 'w') {
-            in[nin] = p[j] ? *(volatile int32_t *)p[j] : -1; obs_in[tid][nin] = in[nin]; nin++;
-            if (p[j]) for (int i = 1; i < (t->m[j] == 'h' ? NH : NB); i++)
-                if (((volatile int32_t *)p[j])[i] != in[nin - 1] + i * (int32_t)PMOD) {
+            in[nin] = p[j] ? dec(p[j]) : -1; obs_in[tid][nin] = in[nin]; nin++;
+            if (p[j]) for (int i = NH; i < (t->m[j] == 'h' ? NH : NB); i++)
+                if (((volatile uint8_t *)p[j])[i] != enc((uint32_t)in[nin - 1], i)) {
                     parsec_atomic_fetch_inc_int32(&torn);
-                    if (dbg) fprintf(stderr, "[%d] task %d flow %d element %d is %d, element 0 is %d\n", my_rank, tid, j, i,
-                                     (int)((volatile int32_t *)p[j])[i], (int)in[nin - 1]);
+                    if (dbg) fprintf(stderr, "[%d] task %d flow %d byte %d is %d, the value is %d\n", my_rank, tid, j, i,
+                                     (int)((volatile uint8_t *)p[j])[i], (int)in[nin - 1]);
                 }
         }
     }
@@ -123,14 +131,14 @@ static int body(parsec_execution_stream_t *es, parsec_task_t *this_task) {
     uint32_t v = Fval(tid, in, nin);
     for (int j = 0; j < t->nacc; j++)
         if (t->m[j] != 'r' && t->m[j] != 'h' && p[j])
-            for (int i = 0; i < NB; i++) ((volatile int32_t *)p[j])[i] = (int32_t)v + i * (int32_t)PMOD;
+            for (int i = 0; i < NB; i++) ((volatile uint8_t *)p[j])[i] = enc(v, i);
     parsec_atomic_fetch_inc_int32(&runs[tid]);
     if (dbg) fprintf(stderr, "[%d] ran task %d\n", my_rank, tid);
     return PARSEC_HOOK_RETURN_DONE;
 }
 
 /* tile d is tile (owner[d] + ranks * d, 0) of a (ranks x 1) block-cyclic matrix of (ranks * ndata) x 1
- * tiles of NB int32: any ownership map is a choice of rows */
+ * tiles of <bytes> bytes: any ownership map is a choice of rows */
 static parsec_data_key_t key_of(int d) { return g_A->data_key(g_A, C.owner[d] + C.ranks * d, 0); }
 static parsec_dtd_tile_t *tile_of(int d) { return PARSEC_DTD_TILE_OF_KEY(g_A, key_of(d)); }
 
@@ -163,8 +171,10 @@ static int parse_case(const char *line, case_t *c) {
     if (!bar) return 0;
     *bar = 0;
     memset(c, 0, sizeof(*c));
-    if (sscanf(l, "dtdflush %d %d %d %31s %d %d %d %255s", &c->ranks, &c->ndata, &c->threads, c->sched, &c->window,
-               &c->threshold, &c->spin, owners) != 8) return 0;
+    c->tb = 16;
+    if (sscanf(l, "dtdflush %d %d %d %31s %d %d %d %255s %d", &c->ranks, &c->ndata, &c->threads, c->sched, &c->window,
+               &c->threshold, &c->spin, owners, &c->tb) < 8) return 0;
+    if (c->tb < NH || c->tb > MAXB) return 0;
     if (c->ranks < 1 || c->ranks > MAXR || c->ndata < 1 || c->ndata > MAXD || c->threads < 1 || c->threads > 64 ||
         c->window < 0 || c->threshold < 0) return 0;
     {   char *s = owners; int d = 0;
@@ -183,6 +193,9 @@ static int parse_case(const char *line, case_t *c) {
         item_t *it = &c->it[c->nitems];
         if (*s == '!') {
             s++; it->kind = '!'; if (++nwait > MAXS) return 0;
+        } else if (*s == '%') {
+            char *e; long r = strtol(s + 1, &e, 10); if (e == s + 1 || r < 0 || r >= c->ranks) return 0;
+            it->kind = '%'; it->arg = (int)r; s = e;
         } else if (*s == '~') {
             s++; it->kind = '~'; it->arg = c->ntasks;
         } else if (*s == 'F') {
@@ -233,7 +246,7 @@ static int ctx_init(const case_t *c) {
 
 static void snapshot(int k) {
     for (int d = 0; d < C.ndata; d++)
-        for (int i = 0; i < NB; i++) snaps[k][d][i] = home[d] ? ((volatile int32_t *)home[d])[i] : 0;
+        for (int i = 0; i < NB; i++) snaps[k][d][i] = home[d] ? ((volatile uint8_t *)home[d])[i] : 0;
 }
 
 /* returns NULL or a static error text */
@@ -244,26 +257,26 @@ static const char *run_case(int *nsnap_out) {
 
     parsec_matrix_block_cyclic_t *m = calloc(1, sizeof(*m));
     int mt = C.ranks * C.ndata;
-    parsec_matrix_block_cyclic_init(m, PARSEC_MATRIX_INTEGER, PARSEC_MATRIX_TILE, my_rank,
+    parsec_matrix_block_cyclic_init(m, PARSEC_MATRIX_BYTE, PARSEC_MATRIX_TILE, my_rank,
                                     NB, 1, mt * NB, 1, 0, 0, mt * NB, 1, C.ranks, 1, 1, 1, 0, 0);
     m->mat = parsec_data_allocate((size_t)m->super.nb_local_tiles * (size_t)m->super.bsiz *
                                   (size_t)parsec_datadist_getsizeoftype(m->super.mtype));
-    memset(m->mat, 0, (size_t)m->super.nb_local_tiles * (size_t)m->super.bsiz * sizeof(int32_t));
+    memset(m->mat, 0, (size_t)m->super.nb_local_tiles * (size_t)m->super.bsiz);
     g_A = (parsec_data_collection_t *)m;
     parsec_data_collection_set_key(g_A, "A");
     for (int d = 0; d < C.ndata; d++) {
         home[d] = NULL;
         if (C.owner[d] == my_rank) {
             parsec_data_t *dt = g_A->data_of(g_A, C.owner[d] + C.ranks * d, 0);
-            home[d] = (int32_t *)PARSEC_DATA_COPY_GET_PTR(dt->device_copies[0]);
-            for (int i = 0; i < NB; i++) home[d][i] = 100 + d + i * (int32_t)PMOD;
+            home[d] = (uint8_t *)PARSEC_DATA_COPY_GET_PTR(dt->device_copies[0]);
+            for (int i = 0; i < NB; i++) home[d][i] = enc(100u + (uint32_t)d, i);
         }
     }
 
     g_tp = parsec_dtd_taskpool_new();
-    parsec_arena_datatype_t *adt = parsec_matrix_adt_new_rect(parsec_datatype_int32_t, NB, 1, NB);
+    parsec_arena_datatype_t *adt = parsec_matrix_adt_new_rect(parsec_datatype_int8_t, NB, 1, NB);
     parsec_dtd_attach_arena_datatype(ctx, adt, &g_region);
-    parsec_arena_datatype_t *adth = parsec_matrix_adt_new_rect(parsec_datatype_int32_t, NH, 1, NH);
+    parsec_arena_datatype_t *adth = parsec_matrix_adt_new_rect(parsec_datatype_int8_t, NH, 1, NH);
     parsec_dtd_attach_arena_datatype(ctx, adth, &g_head);
     parsec_dtd_data_collection_init(g_A);
     rc = parsec_context_add_taskpool(ctx, g_tp);
@@ -278,6 +291,8 @@ static const char *run_case(int *nsnap_out) {
         else if (it->kind == 'F') {
             if (it->arg < 0) parsec_dtd_data_flush_all(g_tp, g_A);
             else parsec_dtd_data_flush(g_tp, tile_of(it->arg));
+        } else if (it->kind == '%') {
+            if (it->arg == my_rank) usleep(30000);
         } else if (it->kind == '~') {
             struct timespec t0; clock_gettime(CLOCK_MONOTONIC, &t0);
             for (;;) {
@@ -316,8 +331,10 @@ static const char *run_case(int *nsnap_out) {
 
 static void print_tile(FILE *out, const int32_t *e) {
     int ok = 1;
-    for (int i = 1; i < NB; i++) if (e[i] != e[0] + i * (int32_t)PMOD) ok = 0;
-    if (ok) { fprintf(out, "%d", (int)e[0]); return; }
+    uint8_t b[3] = { (uint8_t)e[0], (uint8_t)e[1], (uint8_t)e[2] };
+    int32_t v = dec(b);
+    for (int i = 0; i < NB; i++) if (e[i] != (int32_t)enc((uint32_t)v, i)) ok = 0;
+    if (ok) { fprintf(out, "%d", (int)v); return; }
     for (int i = 0; i < NB; i++) fprintf(out, "%s%d", i ? "/" : "", (int)e[i]);
 }
 
@@ -332,7 +349,7 @@ int main(int argc, char **argv) {
     dbg = getenv("H_DTDFLUSH_DEBUG") != NULL;
     if (my_rank == 0) { out = fopen(argv[2], "a"); if (!out) { perror(argv[2]); MPI_Abort(MPI_COMM_WORLD, 2); } }
     int started = 0;
-    static int32_t r_in[MAXT][MAXF], r_null[MAXT][MAXF], r_runs[MAXT], r_snaps[MAXS + 1][MAXD][NB];
+    static int32_t r_in[MAXT][MAXF], r_null[MAXT][MAXF], r_runs[MAXT], r_snaps[MAXS + 1][MAXD][MAXB];
     while ((l = hc_next(f))) {
         if (strncmp(l, "dtdflush ", 9) || !parse_case(l, &C) || C.ranks != world) {
             if (out) { fprintf(out, "<bad case>\n"); fflush(out); }
@@ -352,7 +369,7 @@ int main(int argc, char **argv) {
         MPI_Reduce(obs_in, r_in, MAXT * MAXF, MPI_INT32_T, MPI_SUM, 0, MPI_COMM_WORLD);
         MPI_Reduce(obs_null, r_null, MAXT * MAXF, MPI_INT32_T, MPI_SUM, 0, MPI_COMM_WORLD);
         MPI_Reduce(runs, r_runs, MAXT, MPI_INT32_T, MPI_SUM, 0, MPI_COMM_WORLD);
-        MPI_Reduce(snaps, r_snaps, (MAXS + 1) * MAXD * NB, MPI_INT32_T, MPI_SUM, 0, MPI_COMM_WORLD);
+        MPI_Reduce(snaps, r_snaps, (MAXS + 1) * MAXD * MAXB, MPI_INT32_T, MPI_SUM, 0, MPI_COMM_WORLD);
         MPI_Reduce(&nulls, &r_nulls, 1, MPI_INT32_T, MPI_SUM, 0, MPI_COMM_WORLD);
         MPI_Reduce(&torn, &r_torn, 1, MPI_INT32_T, MPI_SUM, 0, MPI_COMM_WORLD);
         if (!out) continue;
